@@ -1,4 +1,4 @@
-From AQ Require Import lib.Base model.H3Parse proofs.H3Chunk proofs.H3Split proofs.H3Loop proofs.H3Recv proofs.H3Fin proofs.H3Uni.
+From AQ Require Import lib.Base model.H3Parse proofs.H3Chunk proofs.H3Split proofs.H3Loop proofs.H3Recv proofs.H3Fin proofs.H3Uni proofs.H3Table proofs.H3Push.
 
 (* On the code as pinned, the events of a request stream depend on the chunking: three byte strings for which
    whole delivery and a two-chunk delivery give different normalised events (end-of-stream marker). *)
@@ -23,6 +23,29 @@ Theorem interleaving_independent_refuted :
     = [Events []; Events [EPush 0 9 7]].
 Proof. exact push_promise_blocked_refuted. Qed.
 Print Assumptions interleaving_independent_refuted.
+
+(* POSITIVE, model of the patched code (C14-fix-3 = fx_pushblock): a request stream [sid] (new, or between two frames:
+   req_ready) receives a PUSH_PROMISE frame -- any varint encoding of type / length / push id (frame_at) -- followed by
+   ANY further bytes [rest], with or without FIN, and the header block of the promise needs data of the QPACK encoder
+   stream [es] (already open, or opened by that very delivery: enc_ready).  Delivering the encoder stream first (the block
+   then decodes at once) or the request stream first (the block waits: StreamBlocked; the encoder-stream delivery reports
+   the stream as unblocked and the promise is resumed) makes handle_event return the same outputs: the same events in the
+   same order, or the same close code.  Hypothesis on the external decoder (deterministic in its input history): decoding
+   the block once the encoder data is known gives what resuming it after the data arrived gives (o_resume = o_dec), and
+   that is not "blocked" again. *)
+Theorem interleaving_independent_push_promise :
+  forall fx, fx_trunc fx = true -> fx_endmark fx = true -> fx_pushblock fx = true ->
+  forall c0 sid es data payload rest pid block fin encdata encpayload OA OB O2,
+  c_client c0 = true -> c_done c0 = false -> is_uni sid = false -> is_uni es = true ->
+  req_ready c0 sid -> enc_ready c0 es encdata encpayload ->
+  frame_at data 5 payload rest -> pull_uint_var payload = Some (pid, block) ->
+  o_enc OA encpayload = EUnblocked [] ->
+  o_dec OB sid block = DBlocked ->
+  o_enc O2 encpayload = EUnblocked [sid] -> o_resume O2 sid = o_dec O2 sid block -> o_dec O2 sid block <> DBlocked ->
+  run fx c0 [(QStream es encdata false, OA); (QStream sid data fin, O2)] =
+  run fx c0 [(QStream sid data fin, OB); (QStream es encdata false, O2)].
+Proof. exact pp_interleave. Qed.
+Print Assumptions interleaving_independent_push_promise.
 
 (* the refuting inputs on the model of the patched code: same outcome for both deliveries *)
 Theorem chunking_witnesses_agree_when_fixed :
